@@ -20,7 +20,7 @@ vloop.install_gather_wrapper()
 
 SYNC_OPS = {
     "apply", "map", "start", "cancel", "cancel_group", "cancel_all", "stop", "stop_all",
-    "lock", "unlock", "set_size", "probe_capacity", "noop",
+    "lock", "unlock", "set_size", "probe_capacity", "probe_cancel", "probe_reject", "noop",
 }
 CORO_OPS = {"flush", "gac", "until_closed"}
 
@@ -91,6 +91,8 @@ class PoolWorld:
         self.terminated = False  # set by terminal-branch ops
         self.probing = False
         self.bad_names = []
+        self.dup_keys = []
+        self.cb_mismatch = []
         self.start_seq = 0
         self.start_order = {}  # key -> sequence number of worker start
         self.cancel_targets = set()  # keys a cancel-type op was aimed at (harness knowledge)
@@ -168,6 +170,8 @@ class PoolWorld:
 
         async def work(*args, **kwargs):
             key, name = w.cur_key()
+            if key in w.started:
+                w.dup_keys.append(key)
             w.started[key] = (tag, args, kwargs)
             w.task_names[key] = name
             w.start_seq += 1
@@ -239,6 +243,9 @@ class PoolWorld:
 
         def enter(i):
             key = (p, i)
+            nm = asyncio.current_task().get_name()
+            if nm != f"{w.pools[p]}_Task-{i}":
+                w.cb_mismatch.append((which, i, nm))
             w.cb_begun[(which, key)] += 1
             w.cb_open += 1
             w.point(which, key, tag)
@@ -389,7 +396,7 @@ class PoolWorld:
             self.terminated,
             tuple(self.cfg_size),
             sorted(self.live.items()),
-            len(self.viol),
+            len(self.viol), len(self.dup_keys), len(self.bad_names),
             sorted(self.start_order.items()),
             sorted(self.cancel_targets),
             sorted(self.closed_pools), sorted(self.closing), sorted(self.flushes_begun.items()),
@@ -510,7 +517,7 @@ class PoolWorld:
             return all(self.resolve_id(s) is not None for s in pos)
         if name == "cancel_group":
             g = pos[0]
-            if isinstance(g, dict):
+            if g.startswith("?"):
                 return True
             return g in self.reqs and g not in self.group_cancelled
         if name == "probe_capacity":
@@ -520,7 +527,11 @@ class PoolWorld:
             return self.idle() and self.cb_open == 0
         return True
 
+    def raised(self, out, cls):
+        return out[0] == "raised" and isinstance(self.last_exc, cls)
+
     def run_actor_op(self, i):
+        self.last_exc = None
         pc = self.pcs[i]
         op = self.scen["actors"][i][pc]
         self.pcs[i] += 1
@@ -602,8 +613,8 @@ class PoolWorld:
                 return ("ok", tuple(ids))
             if name == "cancel_group":
                 g = pos[0]
-                if isinstance(g, dict):
-                    pool.cancel_group(g["name"])
+                if g.startswith("?"):
+                    pool.cancel_group(g[1:])
                     return ("ok",)
                 req = self.reqs[g]
                 targets = {(p, t) for t in self.created.get(g, ())}
@@ -644,6 +655,11 @@ class PoolWorld:
                 for m in self.monitors:
                     m.probe(p)
                 return ("ok",)
+            if name in ("probe_cancel", "probe_reject"):
+                self.terminated = True
+                for m in self.monitors:
+                    getattr(m, name)(p, *pos)
+                return ("ok",)
             if name in CORO_OPS:
                 if name == "flush":
                     coro = pool.flush(*pos)
@@ -662,6 +678,7 @@ class PoolWorld:
                 return None
             raise ValueError(f"unknown op {op!r}")
         except Exception as e:  # the op itself raised: that is its outcome
+            self.last_exc = e
             return ("raised", type(e).__name__)
 
     async def _drv(self, i, pc, op, coro):
@@ -750,6 +767,12 @@ class Monitor:
         pass
 
     def terminal_probe(self):
+        pass
+
+    def probe_cancel(self, p, *a):
+        pass
+
+    def probe_reject(self, p, *a):
         pass
 
     def __canon__(self):
